@@ -59,6 +59,7 @@ parse_class = Contract(
         Clause("PC-body", "result['_internal']['body'] == [class_def.body[1]] and result['_internal']['from_name'] == class_def.name and result['_internal']['from_type'] == 'cls'",
                when=["attr-none,method"], note="C16: everything that is not an attribute is carried as the body (same statements)"),
         Clause("PC-body-empty", "result['_internal']['body'] == []", when=["two-attrs", "return_type-attr"]),
+        Clause("PC-frame", "unchanged(class_def, old_class_def)", note="C13: parsing does not alter the tree it was given"),
     ],
     canaries=["result['params'] == {}", "result['returns'] is None"],
 )
@@ -190,3 +191,39 @@ call_body_roundtrip = Contract(
 )
 call_body_roundtrip.opaque = {"to_docstring": {"ret": "str"}, "get_docstring": {"ret": "none"}, "to_code": {"ret": "str"}, "_to_code": {"ret": "str"}}
 CONTRACTS.append(call_body_roundtrip)
+
+# ------------------------------------------------------------------------------------------- _merge_inner_function (C07 / C19: which __init__ is merged)
+def _init(args):
+    return ("node", "ast.FunctionDef", {"name": ("lit", "__init__"), "body": ("list", [_PASS]), "decorator_list": ("list", []), "returns": None,
+                                        "args": ("node", "ast.arguments", {"posonlyargs": ("list", []), "args": ("list", [_arg(a) for a in args]), "vararg": None,
+                                                                           "kwonlyargs": ("list", []), "kw_defaults": ("list", []), "kwarg": None, "defaults": ("list", [])})})
+
+
+def _nested(name, body):
+    return ("node", "ast.ClassDef", {"name": ("lit", name), "bases": ("list", []), "keywords": ("list", []), "body": ("list", body), "decorator_list": ("list", [])})
+
+
+_MIF = {
+    "own-init-after-nested": (_nested("Outer", [_nested("Inner", [_init(["self", "q"])]), _init(["self", "a"])]), "class_def.body[1]"),
+    "own-init-before-nested": (_nested("Outer", [_init(["self", "a"]), _nested("Inner", [_init(["self", "q"])])]), "class_def.body[0]"),
+    "only-own-init": (_nested("Outer", [_annassign("x", _INT), _init(["self", "a"])]), "class_def.body[1]"),
+    "no-init": (_nested("Outer", [_annassign("x", _INT)]), None),
+}
+
+merge_inner_function = Contract(
+    "doctrans.parse:_merge_inner_function",
+    properties=["C07", "C19"],
+    note="classes with their own __init__, a nested class that has an __init__ of its own (before / after), or none; parse.function and ir_merge are opaque and logged: "
+         "the contract pins WHICH definition is parsed and merged (ast.walk is modelled breadth-first as in CPython)",
+    cases=[Case(k, {"class_def": c, "infer_type": False, "intermediate_repr": ("dict", {"name": None, "params": ("dict", {})}), "merge_inner_function": ("lit", "__init__")})
+           for k, (c, _) in _MIF.items()],
+    ensures=[Clause("MIF-%s" % k, ("log_function_n == 1 and log_function_args[0][0] is %s and log_function_kwargs[0]['function_type'] == 'self' and log_ir_merge_n == 1 "
+                                   "and log_ir_merge_kwargs[0]['other'] is log_function_results[0] and log_ir_merge_kwargs[0]['target'] is intermediate_repr" % want)
+                    if want else "log_function_n == 0 and log_ir_merge_n == 0", when=[k],
+                    note="C07 / C19: the interface merged into the class is that of the class's OWN __init__ - never a nested class's" if want else "no constructor, nothing merged")
+             for k, (_, want) in _MIF.items()]
+    + [Clause("MIF-same", "result is intermediate_repr")],
+    canaries=["log_function_n == 0"],
+)
+merge_inner_function.opaque = {"function": {"ret": ("obj", None)}, "ir_merge": {"ret": "none", "effect": True}}
+CONTRACTS.append(merge_inner_function)
